@@ -45,3 +45,10 @@ impl<T> SerialMap<T> {
         }
     }
 }
+
+#[cfg(feature = "verif-hooks")]
+impl<T> SerialMap<T> {
+    pub(crate) fn verif_iter(&self) -> impl Iterator<Item = (u32, &T)> {
+        self.elems.iter().map(|(&serial, elem)| (serial, elem))
+    }
+}
